@@ -21,8 +21,8 @@ RULE = ('one run = one seeded program on one Connection (plus an observer '
         'exact set of records each commit stores; non-trivial = >= 1 failed '
         'or aborted transaction with new objects or >= 2 commits; distinct '
         '= op trace')
-BUDGET = {'quick': {'runs': 4000, 'wall': 300, 'chunk': 25},
-          'thorough': {'runs': 120000, 'wall': 3000, 'chunk': 50}}
+BUDGET = {'quick': {'runs': 12000, 'wall': 300, 'chunk': 25},
+          'thorough': {'runs': 1200000, 'wall': 1800, 'chunk': 200}}
 ASSUMPTIONS = [
     'the object cache is large enough that no new object saved by a '
     'savepoint is evicted (an evicted one keeps its state only in the '
